@@ -4,6 +4,7 @@
 //!                       [--out result.json] [--journal file] [--scale X] [--replay file]
 //! cmd: selftest | merge-hashes <files..> | C01 .. C14
 
+mod apimon;
 mod engmon;
 mod fenmon;
 mod itermon;
@@ -244,6 +245,19 @@ fn main() {
             }
             finish(&c, &a, J::Null);
         }
+        "C07" => {
+            let mut c = Collector::new(&a.cmd, a.journal.as_deref());
+            if let Some(rp) = &a.replay {
+                let text = std::fs::read_to_string(rp).expect("read replay file");
+                let j = J::parse(&text).expect("parse replay file");
+                let r = j.get("replay").cloned().unwrap_or(J::Null);
+                std::process::exit(apimon::replay(&mut c, &r));
+            }
+            let small = a.rest.iter().any(|x| x == "--small");
+            let digest = apimon::c07(&mut c, a.seed, a.shard, a.nshards, a.tier == "thorough", small, a.scale);
+            finish(&c, &a, refmodel::json::obj().set("digest", format!("{digest:016x}")).set("shard", a.shard));
+        }
+        "noop" => {}
         "C14" => {
             let mut c = Collector::new(&a.cmd, a.journal.as_deref());
             if let Some(rp) = &a.replay {
